@@ -169,6 +169,34 @@ def version_keys(F, fid, want):
 
 
 # ---------------------------------------------------------------------------------------------------------------------
+def rule_nonempty_field(rep, F, inv, cddl):
+    rep.rule("NONEMPTY-field", "an optional record field whose CDDL type is a non-empty collection (certificates, withdrawals {+ ..}, mint, collateral / reference inputs / required signers nonempty_set, voting procedures, proposal procedures) is written only in presence states in which the writer has established that the collection has an element (E2 atom nonempty:<field> true in every state that emits the key): `05 a0` - key 5 with an empty map - is rejected by the ledger's decoder although the library reads it back")
+    shorts = by_short(inv)
+    n = 0
+    for tname, want in sorted(cddl.get("nonempty_fields", {}).items()):
+        cands = shorts.get(tname, [])
+        if len(cands) != 1:
+            rep.lost("writer of %s not found" % tname)
+            continue
+        T, wf = cands[0]
+        r = inv.result(wf)
+        if r["status"] != "ok":
+            rep.lost("writer of %s is not derivable (%s)" % (tname, r.get("why")))
+            continue
+        rows = [c for c in r["containers"] if c["kind"] == "map" and c.get("depth", 1) == 1 and c["keys"] and all(isinstance(k, int) for k in c["keys"])]
+        for k, field in sorted(want.items(), key=lambda kv: int(kv[0])):
+            k = int(k)
+            n += 1
+            rep.inst("NONEMPTY-field")
+            emitting = [c for c in rows if k in c["keys"]]
+            if not emitting:
+                continue
+            bad = [c for c in emitting if not any(a.startswith("nonempty:") and a.split(".")[-1].rstrip(")") == field for a in c.get("true_atoms", []))]
+            if bad:
+                rep.violation("NONEMPTY-field", "%s|key %d|%s" % (tname, k, field), "%s: key %d (%s) is written in a presence state in which nothing says the collection is non-empty (true atoms about it: %s): a value holding Some(empty %s) is emitted as key %d with an empty collection, which the CDDL (non-empty) excludes" % (tname, k, field, sorted(a for a in bad[0].get("true_atoms", []) if a.endswith("." + field)), field, k), {})
+    rep.floor("non-empty optional fields judged", 8, n)
+
+
 def rule_spec_array(rep, F, inv, cddl):
     rep.rule("SPEC-array", "array records: declared length, leading index, field order and tag are those of the CDDL, in every presence state")
     shorts = by_short(inv)
@@ -1006,6 +1034,7 @@ def check(rep, F, tier, replay=None):
     inv = Inventory(F, thorough=(tier == "thorough"))
     inv.analyse_all()
     rule_spec_map(rep, F, inv, cddl)
+    rule_nonempty_field(rep, F, inv, cddl)
     rule_spec_array(rep, F, inv, cddl)
     rule_spec_enum(rep, F, inv, cddl)
     rule_spec_index(rep, F, cddl)
